@@ -357,6 +357,28 @@ def trunc_cases(tier):
         yield "invalid-wf:%d" % ii, w
 
 
+LONGTAG = [
+    '<defSwitchVector device="d" name="n" state="Ok" perm="rw" rule="AnyOfMany"/>',
+    '<defNumberVector device="d" name="n" state="Ok" perm="rw"/>',
+    '<newSwitchVector device="d" name="n"><oneSwitch name="a">On</oneSwitch></newSwitchVector>',
+    '<newNumberVector device="d" name="n"/>',
+    '<setSwitchVector device="d" name="n" state="Ok"/>',
+    '<setNumberVector device="d" name="n" state="Busy"><oneNumber name="x">1.5</oneNumber></setNumberVector>',
+    '<setLightVector device="d" name="l" state="Ok"><oneLight name="a">Ok</oneLight><oneLight name="b">Busy</oneLight></setLightVector>',
+    '<defLightVector device="d" name="l" state="Ok"><defLight name="a">Ok</defLight></defLightVector>',
+    '<delProperty device="d"/>',
+    '<enableBLOB device="d">Also</enableBLOB>',
+]
+
+
+def longtag_streams():
+    """valid messages of the kinds the fragment alphabet does not contain (the longest tag names, and the vector
+    whose child tag is also a top-level tag) between non-imitating junk: strict promptness under ALL partitions"""
+    for k, m in enumerate(LONGTAG):
+        junk = ("ab<c> &;", "\n", "<?x", "]]>>")[k % 4]
+        yield (junk, m, junk, V1)
+
+
 def shards(tier, seed):
     sh = []
     # (a) fragment sequences with full graphs
@@ -366,6 +388,8 @@ def shards(tier, seed):
             sh.append((tier, "frag-graph", n_graph, fi, part))
     for fi in range(len(FRAGS)):
         sh.append((tier, "frag-feed", n_graph + 1, fi))
+    for k in range(len(LONGTAG)):
+        sh.append((tier, "longtag", k))
     cases = list(trunc_cases(tier))
     nshard = 31  # coprime with the case strides below, so heavy cases spread over shards
     for s in range(nshard):
@@ -399,6 +423,35 @@ def run_shard(shard):
                 "replay": dict(extra, stream=S, T=T, tname=tname, pieces=pieces),
             }
 
+    if what == "longtag":
+        frs = list(longtag_streams())[shard[2]]
+        S = "".join(frs)
+        pos = 0
+        numbered = []
+        for f in frs:
+            pos += len(f)
+            if f.startswith("<") and f[1:2].isalpha() and f.endswith(">"):
+                numbered.append((pos, X.view_of_xml(f)))
+        fit = max(len(f) for f in frs)  # smallest threshold every message of the stream fits
+        for tname, T in (("fit", fit), ("2048", 2048), ("None", None)):
+            base = make_check(S, tname, T, None, numbered, None)
+            cnt = {"d": 0}
+
+            def chk(i, nd, k, d, b, e, base=base, cnt=cnt):
+                cnt["d"] += len(d)
+                return base(i, nd, k, d, b, e)
+
+            r = BG.explore(S, T, chk)
+            res["streams"] += 1
+            res["modeA"] += 1
+            res["graphs"] += 1
+            res["deliveries"] += cnt["d"]
+            res["states"] += r["states"]
+            res["transitions"] += r["transitions"]
+            for fails, pieces in r["violations"]:
+                record("longtag%r" % (frs[1][:24],), S, T, tname, fails, pieces, {"mode": "A", "numbered": numbered})
+        res["violations"] = list(sig.values())
+        return res
     if what in ("frag-graph", "frag-feed"):
         n, fi = shard[2], shard[3]
         seqs = []
